@@ -661,16 +661,23 @@ PPL::Polyhedron::contains_integer_point() const {
         PPL_ASSERT(c.is_inconsistent());
         return false;
       }
+      // On the integers, `a.x + b > 0' is `a.x + b - 1 >= 0'; dividing by
+      // the GCD g of `a', this is `(a/g).x + floor((b - 1)/g) >= 0'.
       Linear_Expression le(c.expression());
+      le -= inhomogeneous;
       if (homogeneous_gcd != 1) {
         le /= homogeneous_gcd;
       }
-      // Further tighten the constraint if the inhomogeneous term
-      // was integer, i.e., if `homogeneous_gcd' divides `inhomogeneous'.
-      gcd_assign(gcd, homogeneous_gcd, inhomogeneous);
-      if (gcd == homogeneous_gcd) {
-        le -= 1;
-      }
+      tightened_inhomogeneous = inhomogeneous;
+      --tightened_inhomogeneous;
+      assign_r(rational_inhomogeneous.get_num(),
+               tightened_inhomogeneous, ROUND_NOT_NEEDED);
+      assign_r(rational_inhomogeneous.get_den(),
+               homogeneous_gcd, ROUND_NOT_NEEDED);
+      rational_inhomogeneous.canonicalize();
+      assign_r(tightened_inhomogeneous,
+               rational_inhomogeneous, ROUND_DOWN);
+      le += tightened_inhomogeneous;
       mip.add_constraint(le >= 0);
     }
     else {
